@@ -118,6 +118,12 @@ def avail (T : Table) (w : World) (id : String) : Bool :=
   | some s => (T (some s)).available
   | none => false
 
+/-- `filter_final`: a known id whose status is final -/
+def finalOf (T : Table) (w : World) (id : String) : Bool :=
+  match w.orch.statusOf id with
+  | some s => (T (some s)).isFinal
+  | none => false
+
 /-- `release_waiters(id)` on both wait-graph representations -/
 def releaseBoth (w : World) (id : String) : World :=
   { w with bcMem := memStep w.bcMem (.release id), bcSql := sqlStep w.bcSql (.release id) }
@@ -173,7 +179,10 @@ def step (T : Table) (w : World) : Op → World × String
   | .wait waiter ids =>
     if truthy waiter then
       match waiter with
-      | some wt => ({ w with bcMem := memStep w.bcMem (.wait wt ids), bcSql := sqlStep w.bcSql (.wait wt ids) }, "ok")
+      | some wt =>
+        let w1 := { w with bcMem := memStep w.bcMem (.wait wt ids), bcSql := sqlStep w.bcSql (.wait wt ids) }
+        -- `for final_id in self.filter_final(ids): self.blocking_control.release_waiters(final_id)`
+        ((ids.filter (finalOf T w)).foldl releaseBoth w1, "ok")
       | none => (w, "ok")
     else (w, "ok")
   | .release id => (releaseBoth w id, "ok")
